@@ -71,7 +71,7 @@ Lemma ingest_extra_meta : forall c b bytes s s' extra,
 Proof.
   intros c b bytes s s' extra. unfold ingest.
   destruct (c_max_wal_bytes c <? wal_size s); [discriminate|].
-  destruct (prepare (c_seed c) b (tabs s) [] []) as [[[l1 created] colrows]| | | |] eqn:Ep;
+  destruct (prepare code_seed b (tabs s) [] []) as [[[l1 created] colrows]| | | |] eqn:Ep;
     cbn [bind]; try discriminate.
   destruct (apply_batch _ l1) as [l2| | | |]; cbn [bind]; try discriminate.
   intro H. injection H as <-. cbn [acked]. intro E. apply app_inv_head in E.
@@ -216,7 +216,7 @@ Lemma ingest_blocked : forall c b bytes s,
 Proof.
   intros c b bytes s. unfold ingest. destruct (c_max_wal_bytes c <? wal_size s); [tauto|].
   split; [|discriminate].
-  destruct (prepare_shape (c_seed c) b (tabs s) [] []) as [[[[l1 created] colrows] ->]|[st ->]];
+  destruct (prepare_shape code_seed b (tabs s) [] []) as [[[[l1 created] colrows] ->]|[st ->]];
     cbn [bind]; [|discriminate].
   destruct (apply_batch_shape (b ++ meta_tables_batch created ++ colrows) l1) as [[l2 ->]|[st ->]];
     cbn [bind]; discriminate.
@@ -249,9 +249,9 @@ Proof.
     - intros x HI. apply N.leb_le. rewrite Ecur. eapply seqN_ge. rewrite <- (i_ids _ I).
       apply in_map. exact HI. }
   rewrite Ekeep.
-  destruct (restore_tables_total (c_seed c) (tabs s) (i_keys _ I) (i_tabs _ I)) as [l0 ->]. cbn [bind].
-  destruct (create_if_empty (c_seed c) s_meta_tables l0) as [l1 b1].
-  destruct (replay_shape (c_seed c) (d_wal s) None l1) as [[l2 E]|[st E]]; rewrite E; cbn [bind].
+  destruct (restore_tables_total code_seed (tabs s) (i_keys _ I) (i_tabs _ I)) as [l0 ->]. cbn [bind].
+  destruct (create_if_empty code_seed s_meta_tables l0) as [l1 b1].
+  destruct (replay_shape code_seed (d_wal s) None l1) as [[l2 E]|[st E]]; rewrite E; cbn [bind].
   - left. eauto.
   - right. exists st. split; auto.
     destruct (replay_panic _ _ _ _ _ E) as [->|H]; auto.
